@@ -16,6 +16,22 @@ fn set_width(cmd: Command, w: usize) -> Command {
     cmd
 }
 
+/// custom help templates (Command::help_template), applied to every level: the documented default-like one, one made of
+/// the separate section tags with an unknown tag and an unclosed brace, one with a single tag
+const TEMPLATES: [(&str, &str); 3] = [
+    ("tmplA", "{before-help}{name} {version}\n{author-with-newline}{about-with-newline}\n{usage-heading} {usage}\n\n{all-args}{after-help}"),
+    ("tmplB", "{bin}\n{tab}{usage}\nOPTS:\n{options}\nPOS:\n{positionals}\nSUBS:\n{subcommands}\n{unknown-tag} {about-section}{"),
+    ("tmplC", "{options}"),
+];
+fn set_template(cmd: Command, t: &'static str) -> Command {
+    let mut cmd = cmd.help_template(t);
+    let names: Vec<String> = cmd.get_subcommands().map(|s| s.get_name().to_string()).collect();
+    for n in names {
+        cmd = cmd.mut_subcommand(n, |sc| set_template(sc, t));
+    }
+    cmd
+}
+
 fn find_sub(hay: &[u8], needle: &[u8]) -> bool {
     !needle.is_empty() && hay.windows(needle.len()).any(|w| w == needle)
 }
@@ -54,6 +70,10 @@ fn render(cmd: &Command, path: &[String], what: &str) -> Result<String, String> 
     guarded(std::panic::AssertUnwindSafe(move || {
         let mut argv: Vec<OsString> = vec!["prog".into()];
         argv.extend(path.iter().map(OsString::from));
+        let (cmd, what) = match TEMPLATES.iter().find(|(n, _)| what.starts_with(n)) {
+            Some((n, t)) => (set_template(cmd, t), what[n.len() + 1..].to_string()),
+            None => (cmd, what),
+        };
         match what.as_str() {
             "short" | "long" => {
                 argv.push(if what == "short" { "-h".into() } else { "--help".into() });
@@ -96,6 +116,8 @@ fn judge(r: &Value, mode: &str, obs: &Value) -> bool {
     let present = obs["present"].as_array().unwrap();
     let has_tok = |t: &Value| present.iter().any(|p| p["tok"] == *t);
     match mode {
+        // custom template: renders, bounded padding, nothing hidden anywhere
+        m if m.starts_with("tmpl") => !r[if m.ends_with("short") { "not_short" } else { "not_long" }].as_array().unwrap().iter().any(has_tok),
         "usage" => !r["not_usage"].as_array().unwrap().iter().any(has_tok),
         "mirror_short" | "mirror_long" => {
             r["mirror_must"].as_array().unwrap().iter().all(|m| present.iter().any(|p| p["tok"] == m["tok"] && p["sec"] == m["sec"]))
@@ -127,6 +149,7 @@ pub fn help_replay(defs: &str, input: &str, out: &str, div: &str, widths: &str) 
             let mut modes = vec!["short", "long"];
             if path.is_empty() { modes.extend(["direct_short", "direct_long", "usage"]); }
             if r["mirror"] == true && w == widths[0] { modes.extend(["mirror_short", "mirror_long"]); }
+            modes.extend(["tmplA_short", "tmplA_long", "tmplB_short", "tmplB_long", "tmplC_short", "tmplC_long"]);
             for mode in modes {
                 rep.count("renderings", 1);
                 let obs = match render(&cmd, &path, mode) {
@@ -134,7 +157,9 @@ pub fn help_replay(defs: &str, input: &str, out: &str, div: &str, widths: &str) 
                     Ok(text) => {
                         let mut o = analyse(&text, &uni);
                         // the help flag yields the help of the level it was given at: its usage line names the path
-                        if mode == "short" || mode == "long" {
+                        if mode.starts_with("tmpl") {
+                            o["level_ok"] = json!(true);
+                        } else if mode == "short" || mode == "long" {
                             // flag subcommands are shown as {name|--long|-s}: reduce each group to its first alternative
                             let norm = |l: &str| -> String {
                                 let mut out = String::new();
